@@ -94,7 +94,7 @@ def check(run):
             if j > 0:
                 _, _, before = handle_dumps(fsteps[j - 1][0])
                 toks = [t for t in ops[j].split(" ") if not t.startswith(("%", "@"))]
-                rebound = toks[-1] if toks[0] in ("addnew", "getelem", "makeelem", "getmember", "makemember") else None
+                rebound = toks[-1] if toks[0] in ("addnew", "getelem", "makeelem", "getmember", "makemember", "chainget", "addarr", "addobj", "nestarr", "nestobj") else None
                 for h in unrelated[j]:
                     if h == rebound:
                         continue
